@@ -453,6 +453,24 @@ func c11(c *core.Ctx) {
 	}
 
 	// ---------------------------------------------------------------- R8
+	if c.Rule("R9", "no request bytes make the server index out of range: every index/slice expression in hand-written httpgrpc code (header parsing, timeout units, framing) is in range on all paths (obligations shared with C07/R4)", 20) {
+		for _, fn := range p.LibFuncs("httpgrpc") {
+			for _, ob := range core.BoundsOf(fn) {
+				key := core.FuncName(fn) + ":" + ob.Desc
+				if ob.Proven {
+					if strings.Contains(ob.Why, "array type") {
+						c.OkTrivial(key, ob.Instr.Pos(), "%s", ob.Why)
+					} else {
+						c.Ok(key, ob.Instr.Pos(), "%s", ob.Why)
+					}
+				} else {
+					c.Fail(key, ob.Instr.Pos(), "index expression may be out of range: %s (a panic inside the HTTP handler)", ob.Why)
+				}
+			}
+		}
+		c.EndRule()
+	}
+
 	if c.Rule("R8", "a codec that reports success has coded: in every encoding.Codec implementation of the package, each possibly-nil return of Unmarshal passes a decode call that takes the input bytes and the destination message, and the bytes Marshal returns on success come from an encode call that takes the message", 2) {
 		n := 0
 		for _, nt := range codecTypes(p) {
@@ -518,7 +536,7 @@ func c11(c *core.Ctx) {
 	}
 
 	// ---------------------------------------------------------------- R5
-	if c.Rule("R5", "an undecodable unary request reaches the caller as InvalidArgument: the decode callback wraps the codec's error with that constant code", 1) {
+	if c.Rule("R5", "an undecodable request reaches the caller as an error: the unary decode callback wraps the codec's error with the constant code InvalidArgument; a streaming request truncated inside a message never reaches the handler as a clean end of the request stream (shared with C07/R2)", 3) {
 		n := 0
 		for _, hc := range hcs {
 			if hc.Stream {
@@ -568,6 +586,11 @@ func c11(c *core.Ctx) {
 		}
 		if n == 0 {
 			c.Fail("httpgrpc:unary-decode-callback", token.NoPos, "ANCHOR-MISSING: no decode callback in the unary handler")
+		}
+		// streaming: a request cut inside a message is an undecodable request, not the clean end of the request
+		// stream (obligations shared with C07/R2)
+		if c07ServerPayloadEOF(c, p.LibFuncs("httpgrpc")) == 0 {
+			c.Missing("httpgrpc server stream RecvMsg")
 		}
 		c.EndRule()
 	}
